@@ -568,6 +568,53 @@ func c19Streams(a *ChildArgs, r *rand.Rand, avoid map[string]bool, dir string) {
 	}{{"validate-stdin", []string{"validate"}}, {"validate-stdin-dash", []string{"validate", "-"}}, {"format-stdin", []string{"format"}}, {"parse-stdin", []string{"parse"}}, {"validate-stdin-json", []string{"validate", "--output-format", "json"}}} {
 		judge(c.label, c19ExecIn(dir, in, nil, c.args...), f.accepted, c.args)
 	}
+	// a report about stdin names stdin, not a scratch file the command made for itself
+	if !f.accepted {
+		for _, fm := range []string{"json", "sarif"} {
+			run := c19ExecIn(dir, in, nil, "validate", "--output-format", fm)
+			if run.timedOut || run.rc > 1 {
+				continue
+			}
+			a.Rec.Count("evaluations", 1)
+			var doc interface{}
+			body := run.out
+			if i := strings.LastIndex(body, "}"); i >= 0 {
+				body = body[:i+1]
+			}
+			if err := json.Unmarshal([]byte(body), &doc); err != nil {
+				continue // well-formedness is judged with the file reports
+			}
+			var named []string
+			var walk func(v interface{}, key string)
+			walk = func(v interface{}, key string) {
+				switch x := v.(type) {
+				case map[string]interface{}:
+					for k, y := range x {
+						walk(y, k)
+					}
+				case []interface{}:
+					for _, y := range x {
+						walk(y, key)
+					}
+				case string:
+					if key == "file" || key == "uri" {
+						named = append(named, x)
+					}
+				}
+			}
+			walk(doc, "")
+			for _, n := range named {
+				if strings.HasPrefix(n, "http") { // SARIF schema / help links
+					continue
+				}
+				if n != "stdin" && n != "-" && n != "<stdin>" {
+					a.Rec.Viol("C19/streams/validate-stdin-"+fm+"/names-other-file", "machine-readable reports name exactly the failing inputs",
+						fmt.Sprintf("the %s report about text read from stdin names %q", fm, n), map[string]interface{}{"input": trunc(f.content, 300), "stdout": trunc(run.out, 1500)})
+					break
+				}
+			}
+		}
+	}
 	// comment-led and parenthesised texts on stdin are SQL like any other
 	for _, lead := range []string{"-- note\n", "/* c */ ", "\n\n  "} {
 		if f.accepted {
@@ -601,6 +648,12 @@ func c19Streams(a *ChildArgs, r *rand.Rand, avoid map[string]bool, dir string) {
 		}
 	}
 	os.Remove(filepath.Join(dir, "rejected.sql"))
+	// --strict holds for inline text and stdin as it does for files (empty statements are rejected)
+	for _, q := range []string{"SELECT 1;;", "SELECT 1;", "SELECT 1; ; SELECT 2", "SELECT a FROM t", "SELECT a FROM t;;;"} {
+		ok := c19LibAcceptsStrict(q)
+		judge("validate-strict-inline", c19Exec(dir, nil, "validate", "--strict", q), ok, []string{"validate", "--strict", q})
+		judge("validate-strict-stdin", c19ExecIn(dir, []byte(q), nil, "validate", "--strict"), ok, []string{"validate", "--strict", "<stdin " + q + ">"})
+	}
 	// inline texts with characters that also occur in file names
 	for _, q := range []string{"SELECT a / b FROM t", "SELECT a /* c */ FROM t", "SELECT 'x/y.sql' FROM t", "SELECT a FROM t WHERE p = 'q.sql'", "select a from t where b = 'C:\\dir'", "SELECT a FROM"} {
 		ok := c19LibAccepts(q)
